@@ -566,6 +566,9 @@ def check_C07(chk, tier):
         run_phase(chk, "storage-regimes/" + prec, H + "h_storage.c", storage_cases(tier, prec), ["C07."], prec=prec, budget_s=200 if tier == "quick" else 1800, monitor_ids=("ws_viol",),
                   bounds="n<=3 symbolic, n<=10 with symbolic trailing columns; complete and incomplete LU; fill estimate 1/2 vs generous; caller workspace lengths {700..20000} x alignment {0,4}",
                   qtimeout_ms=(3000 if prec in "zc" else 8000) if tier == "quick" else 60000, env=CPLX_ENV if prec in "zc" else None, validate_samples=0)
+    if tier != "quick":   # E1 (thorough only: 160 s, 7 GB): a growth request under library allocation preserves the contents of all four factor arrays, for every request type / fill state
+        hs = [e1.Harness("c07_xpand_system_%s" % pr, [E1H + "h07xpand.c", REPO + "/SRC/%smemory.c" % pr, REPO + "/SRC/memory.c", REPO + "/SRC/util.c"], defs=["-DPREC_" + pr.upper(), "-DMODEL_SYSTEM"], unwind=30, timeout=3000) for pr in ("d", "z")]
+        e1.run_harnesses(chk, hs, "C07 growth request preserves contents (library allocation)", "n <= 2, fill estimate <= 3, every request type and fill level; the caller-workspace variant (real user_bcopy over every lwork <= 320) gave no verdict in 25 min and is not run")
     run_phase(chk, "storage-regimes/workspace-length sweep/d", H + "h_storage.c", storage_sweep_cases(tier), ["C07."], prec="d", budget_s=120 if tier == "quick" else 1800, monitor_ids=("ws_viol",), validate_samples=0,
               bounds="n = 5..7 (10 thorough), fill estimate 1, caller workspace of every length on a 12-byte (4-byte thorough) grid across the fits / does-not-fit boundary, both alignments")
 
